@@ -58,6 +58,7 @@ static struct {
   const volatile void * yl_addr[MV_MAXW][YL_MAX]; size_t yl_sz[MV_MAXW][YL_MAX]; uint64_t yl_val[MV_MAXW][YL_MAX];
   void * yl_th[MV_MAXW][YL_MAX];
   long switches;
+  int run_len;                    /* consecutive decisions that kept the same worker although another was enabled */
   uint64_t hash;
   long now_ns;
   int ended;
@@ -200,6 +201,7 @@ static void decide(int w, int pid) {
   int d = w, hi = 0;
   for (int v = 0; v < S.nw; v++) if ((mask >> v & 1) && S.st[v] != ST_YMULTI) hi |= 1 << v;
   int pref = hi ? hi : mask;   /* fairness: a worker whose threads all wait in yield loops runs only if nobody else can */
+  if (S.run_len > 400 && (pref & ~(1 << w))) { pref &= ~(1 << w); S.run_len = 0; }  /* and nobody monopolises the token for ever */
   if (!(pref >> w & 1)) { for (int k = 1; k <= S.nw; k++) { int v = (w + k) % S.nw; if (pref >> v & 1) { d = v; break; } } }
   alts[nalt++] = d;
   for (int v = 0; v < S.nw; v++) if ((mask >> v & 1) && v != d) alts[nalt++] = v;
@@ -208,8 +210,8 @@ static void decide(int w, int pid) {
   mv_sh->steps[mv_sh->nsteps - 1].tgt = nxt;
   if (mv_sh->trace_to_stderr)
     fprintf(stderr, "[mythv] %5d w%d pid=%-3d mask=%x nalt=%d c=%d -> w%d\n", mv_sh->nsteps - 1, w, pid, mask, nalt, c, nxt);
-  if (nxt == w) { S.st[w] = ST_RUN; return; }
-  S.cur = nxt; S.switches++;
+  if (nxt == w) { S.st[w] = ST_RUN; if (nalt > 1) S.run_len++; return; }
+  S.cur = nxt; S.switches++; S.run_len = 0;
   int left = (S.st[w] == ST_LEFT);
   wake(nxt);
   if (left) return;
